@@ -240,12 +240,14 @@ func ruleLISTRECURSION(c *Ctx) {
 		}
 		return false
 	}
+	visited := map[*ast.CallExpr]bool{}
 	check := func(body *ast.BlockStmt, rightRec bool, ifPos token.Pos) {
 		ast.Inspect(body, func(nd ast.Node) bool {
 			call, ok := nd.(*ast.CallExpr)
 			if !ok {
 				return true
 			}
+			visited[call] = true
 			id, ok := call.Fun.(*ast.Ident)
 			if !ok || (id.Name != "concat" && id.Name != "multiConcat") || len(call.Args) < 3 {
 				return true
@@ -293,7 +295,25 @@ func ruleLISTRECURSION(c *Ctx) {
 		}
 		return true
 	})
-	if n < 4 {
-		c.add(rule, "count:", token.NoPos, CountDropped, true, "only %d recursive list rules under `if rr` found in syntax.Expand (4 confirmed by hand)", n)
+	// every rule that places the recursive reference next to something else does so under `if rr`
+	ast.Inspect(fd.Body, func(nd ast.Node) bool {
+		call, ok := nd.(*ast.CallExpr)
+		if !ok || visited[call] {
+			return true
+		}
+		id, ok := call.Fun.(*ast.Ident)
+		if !ok || (id.Name != "concat" && id.Name != "multiConcat") || len(call.Args) < 3 {
+			return true
+		}
+		for _, a := range call.Args[1:] {
+			if isRec(a) {
+				n++
+				c.Bad(rule, fmt.Sprintf("syntax.Expand:list-rule#%d[unconditional]", n), call.Pos(), "%s places the recursive list reference without consulting the RightRecursive flag: one of the two recursion directions gets its elements or separators on the wrong side", types.ExprString(call))
+			}
+		}
+		return true
+	})
+	if n < 6 {
+		c.add(rule, "count:", token.NoPos, CountDropped, true, "only %d recursive list rules under `if rr` found in syntax.Expand (6 confirmed by hand: separator, reference, choice and generic element, each in both directions)", n)
 	}
 }
